@@ -55,6 +55,7 @@ package fallback
 //@   ensures callpos(ctxCopy, 0) < callpos(primWorker, 0) && callpos(ctxCopy, 1) < callpos(secWorker, 0)
 //@   ensures result == nil ==> calls(SetResponse) == 1 && arg(SetResponse, 0, 1) == lastret(chanRecv, 0) && lastret(chanRecv, 0) != nil
 //@   ensures result != nil ==> calls(SetResponse) == 0
+//@   ensures result != nil && calls(ctxCause) == 0 ==> i == 2
 //@   loop 0:
 //@     invariant 0 <= i && i <= 2 && f != nil && ctx != nil && qCtx != nil && respChan != nil
 //@     each iter_calls(chanRecv) == 1 && iter_arg(chanRecv, 0, 0) == respChan && iter_ret(chanRecv, 0, 0) == nil && iter_calls(SetResponse) == 0
